@@ -31,7 +31,7 @@ func encode(m protocol.Message) ([]byte, string) {
 	}
 	pn := vhlib.Recover(func() { err = protocol.Write(bw, m, nil) })
 	if pn != "" {
-		return nil, pn
+		return nil, "panic: " + pn
 	}
 	if err != nil {
 		return nil, err.Error()
@@ -293,6 +293,19 @@ func (w *world) genMsg(r *vhlib.Rand) protocol.Message {
 			case i >= 1:
 				return protocol.Piece{Index: i - 1, Begin: b + w.cfg.ps, Data: data}
 			}
+		}
+		if r.Chance(20) {
+			// the right block, but the payload runs past it: past the end of the block, of the
+			// piece (inner pieces are multiples of the block size, the last one may not be)
+			pl := w.t.Pieces.PieceLength(i)
+			rest := int(pl) - int(b)
+			if rest < 0 {
+				rest = 0
+			}
+			n := r.PickInt(rest+CS, rest+2*CS, rest+1, 2*rest, len(data)+1, len(data)+CS, 32768, 16385, 49152, 65536, 1<<17, 1<<18)
+			buf := r.Bytes(n)
+			copy(buf, data)
+			return protocol.Piece{Index: i, Begin: b, Data: buf}
 		}
 		switch r.Intn(10) {
 		case 0:
